@@ -13,6 +13,16 @@ pub fn fmt_stub(_args: std::fmt::Arguments<'_>) -> RString {
     RString::new()
 }
 
+/// A collector that is never dropped: `Drop for GC` runs sweep + bitvec iteration, which costs CBMC minutes
+/// per harness and is not what the operator contracts are about (the collector has its own obligations).
+pub fn new_gc() -> std::mem::ManuallyDrop<GC> {
+    std::mem::ManuallyDrop::new(GC::new())
+}
+/// Results are not dropped either (dropping an Err(String) drags the deallocation model into every query).
+pub fn keep<T>(r: T) -> std::mem::ManuallyDrop<T> {
+    std::mem::ManuallyDrop::new(r)
+}
+
 /// precondition shared by everything that takes a language-level integer: the 61-bit range
 pub fn any_int() -> isize {
     let v: isize = kani::any();
@@ -215,4 +225,375 @@ fn c15_array_roundtrip() {
     if n >= 1 { assert!(o.as_vec()[0].0 == e0.0); }
     if n >= 2 { assert!(o.as_vec()[1].0 == e1.0); }
     o.free_recursive();
+}
+
+// ------------------------------------------------------------------------------------------
+// C06  operators
+// ------------------------------------------------------------------------------------------
+
+fn in_range(v: isize) -> bool {
+    v >= MIN_INT && v <= MAX_INT
+}
+
+/// contract of an integer arithmetic operator (harness form; the functions are macro-generated and
+/// cannot carry attributes):  requires both operands in the 61-bit range
+///   ensures  exact ∈ range  ==> Ok(Int(exact))      (mathematically exact, i128 oracle)
+///            exact ∉ range or undefined ==> Err(_)   (never a wrapped value, never a panic)
+/// (the sum/difference of two 61-bit values cannot overflow the 64-bit oracle)
+macro_rules! int_arith_contract {
+    ($name:ident, $method:ident, |$a:ident, $b:ident| $exact:expr) => {
+        #[kani::proof]
+        #[kani::unwind(2)]
+        #[kani::stub(std::fmt::format, fmt_stub)]
+        fn $name() {
+            let $a = any_int();
+            let $b = any_int();
+            let mut gc = new_gc();
+            let exact: Option<isize> = $exact;
+            kani::cover!(exact.is_none() || !in_range(exact.unwrap()));
+            kani::cover!($a < 0 && $b > 0);
+            let r = keep(Object::int($a).$method(Object::int($b), &mut gc));
+            match exact {
+                Some(m) if in_range(m) => match &*r {
+                    Ok(o) => {
+                        assert!(o.tag() == Type::Int);
+                        assert!(o.as_int() == m);
+                    }
+                    Err(_) => assert!(false, "exact result in range must not be an error"),
+                },
+                _ => assert!(r.is_err(), "out-of-range or undefined result must be an error"),
+            }
+        }
+    };
+}
+int_arith_contract!(c06_add_int, add, |a, b| Some(a + b));
+int_arith_contract!(c06_sub_int, sub, |a, b| Some(a - b));
+
+/// mul / div / rem: exactness over mathematical integers is proved by Verus (unit c06_arith, O06.2);
+/// equivalence of two 64-bit multipliers/dividers is SAT-hard. Kani proves here, for ALL operands, that
+/// the same functions never panic and answer with Int or Err, and that a zero divisor is an error.
+macro_rules! int_arith_total {
+    ($name:ident, $method:ident, $zero_is_error:expr) => {
+        #[kani::proof]
+        #[kani::unwind(2)]
+        #[kani::stub(std::fmt::format, fmt_stub)]
+        fn $name() {
+            let a = any_int();
+            let b = any_int();
+            let mut gc = new_gc();
+            kani::cover!(b == 0);
+            kani::cover!(a == MIN_INT && b == -1);
+            let r = keep(Object::int(a).$method(Object::int(b), &mut gc));
+            match &*r {
+                Ok(o) => {
+                    assert!(o.tag() == Type::Int);
+                    assert!(!($zero_is_error && b == 0));
+                    assert!(o.as_int() >= MIN_INT && o.as_int() <= MAX_INT);
+                }
+                Err(e) => assert!(matches!(e, Error::TypeError(_))),
+            }
+        }
+    };
+}
+int_arith_total!(c06_mul_int_total, mul, false);
+int_arith_total!(c06_div_int_total, div, true);
+int_arith_total!(c06_rem_int_total, rem, true);
+
+/// the six comparisons on Int x Int equal the comparison of the integers (total order agreeing with as_int)
+macro_rules! int_cmp_contract {
+    ($name:ident, $method:ident, $op:tt) => {
+        #[kani::proof]
+        #[kani::unwind(2)]
+        #[kani::stub(std::fmt::format, fmt_stub)]
+        fn $name() {
+            let a = any_int();
+            let b = any_int();
+            let mut gc = new_gc();
+            kani::cover!(a < 0 && b > 0);
+            kani::cover!(a == b);
+            let r = keep(Object::int(a).$method(Object::int(b), &mut gc));
+            match &*r {
+                Ok(o) => {
+                    assert!(o.tag() == Type::Bool);
+                    assert!(o.as_bool() == (a $op b));
+                }
+                Err(_) => assert!(false, "comparison of two ints must not fail"),
+            }
+        }
+    };
+}
+int_cmp_contract!(c06_lt_int, lt, <);
+int_cmp_contract!(c06_lte_int, lte, <=);
+int_cmp_contract!(c06_gt_int, gt, >);
+int_cmp_contract!(c06_gte_int, gte, >=);
+int_cmp_contract!(c06_eq_int, eq, ==);
+int_cmp_contract!(c06_neq_int, neq, !=);
+
+/// floats: the result is bit-identical to Rust's / IEEE-754's result for ALL 2^64 x 2^64 operand pairs
+macro_rules! float_arith_contract {
+    ($name:ident, $method:ident, $op:tt) => {
+        #[kani::proof]
+        #[kani::unwind(2)]
+        #[kani::stub(std::fmt::format, fmt_stub)]
+        fn $name() {
+            let x: f64 = kani::any();
+            let y: f64 = kani::any();
+            let mut gc = new_gc();
+            kani::cover!(x.is_nan());
+            kani::cover!(y == 0.0);
+            let a = Object::float(x, &mut gc);
+            let b = Object::float(y, &mut gc);
+            let r = keep(a.$method(b, &mut gc));
+            match &*r {
+                Ok(o) => {
+                    assert!(o.tag() == Type::Float);
+                    let want: f64 = x $op y;
+                    assert!(o.as_f64().to_bits() == want.to_bits() || (o.as_f64().is_nan() && want.is_nan()));
+                }
+                Err(_) => assert!(false, "float arithmetic must not fail"),
+            }
+        }
+    };
+}
+float_arith_contract!(c06_add_float, add, +);
+float_arith_contract!(c06_sub_float, sub, -);
+
+/// MODULAR contracts for the Float arm. The two callees of the arm are replaced by their contracts:
+/// `as_f64_unchecked` returns the payload stored for that word (proved on the real function by O15.7
+/// c15_float_roundtrip) and `Object::float(v, gc)` yields a Float word whose payload is v (O15.7 + O03.1).
+static mut GHOST_A: (usize, f64) = (0, 0.0);
+static mut GHOST_B: (usize, f64) = (0, 0.0);
+static mut GHOST_OUT: Option<f64> = None;
+pub unsafe fn as_f64_contract(o: Object) -> f64 {
+    // PROVED-BY: O15.7 (the payload written by Float::from_f64 is the payload read back)
+    if o.0 as usize == GHOST_A.0 { GHOST_A.1 } else { GHOST_B.1 }
+}
+pub fn float_contract(value: f64, _gc: &mut GC) -> Object {
+    // PROVED-BY: O15.7, O03.1 (Object::float returns a Float-tagged word holding `value`, registered with gc)
+    unsafe { GHOST_OUT = Some(value); }
+    Object((0x7000 | Type::Float as usize) as *mut u8)
+}
+pub unsafe fn as_str_contract(_o: &Object) -> &str {
+    // used only where the text is irrelevant (type-error contracts): any text will do
+    ""
+}
+fn ghost_floats(x: f64, y: f64) -> (Object, Object) {
+    let a = Object((0x1000 | Type::Float as usize) as *mut u8);
+    let b = Object((0x2000 | Type::Float as usize) as *mut u8);
+    unsafe { GHOST_A = (a.0 as usize, x); GHOST_B = (b.0 as usize, y); GHOST_OUT = None; }
+    (a, b)
+}
+/// * / % on floats, ALL 2^64 x 2^64 payloads: the answer is Ok(Float word) whose payload was produced by
+/// exactly one call of Object::float - never an error, never a panic. (Bit-exactness of the payload against an
+/// oracle multiplier/divider is SAT-hard for CBMC - > 120 s even with one operand constant - and is listed
+/// as undecided; + and - are proved bit-exact through the heap by c06_add_float / c06_sub_float.)
+macro_rules! float_arith_total {
+    ($name:ident, $method:ident) => {
+        #[kani::proof]
+        #[kani::unwind(2)]
+        #[kani::stub(std::fmt::format, fmt_stub)]
+        #[kani::stub(Object::as_f64_unchecked, as_f64_contract)]
+        #[kani::stub(Object::float, float_contract)]
+        fn $name() {
+            let x: f64 = kani::any();
+            let y: f64 = kani::any();
+            kani::cover!(x.is_nan());
+            kani::cover!(y == 0.0 && x.is_infinite());
+            let (a, b) = ghost_floats(x, y);
+            let mut gc = new_gc();
+            match &*keep(a.$method(b, &mut gc)) {
+                Ok(o) => {
+                    assert!(o.tag() == Type::Float);
+                    assert!(unsafe { GHOST_OUT }.is_some());
+                }
+                Err(_) => assert!(false, "float arithmetic must not fail"),
+            }
+        }
+    };
+}
+float_arith_total!(c06_mul_float_total, mul);
+float_arith_total!(c06_div_float_total, div);
+float_arith_total!(c06_rem_float_total, rem);
+
+/// [bounded: 4 concrete operand pairs] operand order and operator identity of float * / %
+#[kani::proof]
+#[kani::unwind(2)]
+#[kani::stub(std::fmt::format, fmt_stub)]
+#[kani::stub(Object::as_f64_unchecked, as_f64_contract)]
+#[kani::stub(Object::float, float_contract)]
+fn c06_float_points() {
+    let mut gc = new_gc();
+    let k: u8 = kani::any();
+    kani::assume(k < 4);
+    kani::cover!(k == 3);
+    let (x, y) = match k { 0 => (6.0, 4.0), 1 => (-7.5, 2.0), 2 => (1.0, 0.0), _ => (0.0, -3.0) };
+    let (a, b) = ghost_floats(x, y);
+    assert!(keep(a.mul(b, &mut gc)).is_ok());
+    assert!(unsafe { GHOST_OUT }.unwrap().to_bits() == (x * y).to_bits());
+    assert!(keep(a.div(b, &mut gc)).is_ok());
+    assert!(unsafe { GHOST_OUT }.unwrap().to_bits() == (x / y).to_bits());
+    assert!(keep(a.rem(b, &mut gc)).is_ok());
+    let r = unsafe { GHOST_OUT }.unwrap();
+    assert!(r.to_bits() == (x % y).to_bits() || (r.is_nan() && (x % y).is_nan()));
+}
+
+macro_rules! float_cmp_contract {
+    ($name:ident, $method:ident, $op:tt) => {
+        #[kani::proof]
+        #[kani::unwind(2)]
+        #[kani::stub(std::fmt::format, fmt_stub)]
+        fn $name() {
+            let x: f64 = kani::any();
+            let y: f64 = kani::any();
+            let mut gc = new_gc();
+            kani::cover!(x.is_nan());
+            kani::cover!(x == 0.0 && y == 0.0 && x.is_sign_negative() != y.is_sign_negative());
+            let a = Object::float(x, &mut gc);
+            let b = Object::float(y, &mut gc);
+            match &*keep(a.$method(b, &mut gc)) {
+                Ok(o) => {
+                    assert!(o.tag() == Type::Bool);
+                    assert!(o.as_bool() == (x $op y));
+                }
+                Err(_) => assert!(false, "comparison of two floats must not fail"),
+            }
+        }
+    };
+}
+float_cmp_contract!(c06_lt_float, lt, <);
+float_cmp_contract!(c06_lte_float, lte, <=);
+float_cmp_contract!(c06_gt_float, gt, >);
+float_cmp_contract!(c06_gte_float, gte, >=);
+float_cmp_contract!(c06_eq_float, eq, ==);
+float_cmp_contract!(c06_neq_float, neq, !=);
+
+/// ANY 64-bit word whose low three bits are a valid tag (<= 6): immediates with arbitrary payload, and for
+/// the heap tags an arbitrary - in general dangling - address. Using such words as operands proves more than
+/// the contract needs: the operator decides "type error" from the tags alone and never touches the heap
+/// (CBMC would flag the dereference of a dangling address).
+fn any_word_with_tag(k: u8) -> Object {
+    let w: usize = kani::any();
+    kani::assume(w & TAG_MASK == k as usize);
+    Object(w as *mut u8)
+}
+
+/// One harness per operator (13 x 2): the operator is fixed syntactically, so CBMC explores one function.
+/// The heavy callees (float allocation + collector registration, heap reads) are replaced by their contracts.
+macro_rules! type_error_contracts {
+    ($cross:ident, $same:ident, $method:ident, $opk:expr) => {
+        #[kani::proof]
+        #[kani::unwind(2)]
+        #[kani::stub(std::fmt::format, fmt_stub)]
+        #[kani::stub(Object::as_f64_unchecked, as_f64_contract)]
+        #[kani::stub(Object::float, float_contract)]
+        #[kani::stub(Object::as_str_unchecked, as_str_contract)]
+        fn $cross() {
+            // O06.5a  operands of different type: Err(TypeError) for all 42 ordered pairs of distinct types
+            // and ALL payload words
+            let mut gc = new_gc();
+            let (ka, kb): (u8, u8) = (kani::any(), kani::any());
+            kani::assume(ka < 7 && kb < 7 && ka != kb);
+            kani::cover!(ka == 6 && kb == 5);
+            kani::cover!(ka == 1 && kb == 4);
+            let a = any_word_with_tag(ka);
+            let b = any_word_with_tag(kb);
+            let r = keep(a.$method(b, &mut gc));
+            assert!(matches!(&*r, Err(Error::TypeError(_))));
+        }
+        #[kani::proof]
+        #[kani::unwind(2)]
+        #[kani::stub(std::fmt::format, fmt_stub)]
+        #[kani::stub(Object::as_f64_unchecked, as_f64_contract)]
+        #[kani::stub(Object::float, float_contract)]
+        #[kani::stub(Object::as_str_unchecked, as_str_contract)]
+        fn $same() {
+            same_type_unsupported($opk, |a, b, gc| a.$method(b, gc));
+        }
+    };
+}
+type_error_contracts!(c06_cross_add, c06_same_add, add, 0);
+type_error_contracts!(c06_cross_sub, c06_same_sub, sub, 1);
+type_error_contracts!(c06_cross_mul, c06_same_mul, mul, 2);
+type_error_contracts!(c06_cross_div, c06_same_div, div, 3);
+type_error_contracts!(c06_cross_rem, c06_same_rem, rem, 4);
+type_error_contracts!(c06_cross_lt, c06_same_lt, lt, 5);
+type_error_contracts!(c06_cross_lte, c06_same_lte, lte, 6);
+type_error_contracts!(c06_cross_gt, c06_same_gt, gt, 7);
+type_error_contracts!(c06_cross_gte, c06_same_gte, gte, 8);
+type_error_contracts!(c06_cross_eq, c06_same_eq, eq, 9);
+type_error_contracts!(c06_cross_neq, c06_same_neq, neq, 10);
+type_error_contracts!(c06_cross_and, c06_same_and, and, 11);
+type_error_contracts!(c06_cross_or, c06_same_or, or, 12);
+
+/// O06.5b  same type, unsupported operator, ALL payload words: arithmetic on null/bool/function/string/array
+/// is a TypeError; `&&`/`||` only on bool x bool (exact truth table on the words bool() produces), TypeError
+/// otherwise; ordering (< <= > >=) of arrays and functions is a TypeError; == / != on null, bool, function and
+/// array words is decided by the words; nothing panics.
+fn same_type_unsupported(op: u8, f: impl Fn(Object, Object, &mut GC) -> Result<Object, Error>) {
+    let mut gc = new_gc();
+    let k: u8 = kani::any();
+    kani::assume(k == 0 || k == 2 || k == 3 || k == 5 || k == 6);
+    kani::cover!(k == 6);
+    kani::cover!(k == 3);
+    let (a, b) = if k == 2 { (Object::bool(kani::any()), Object::bool(kani::any())) } else { (any_word_with_tag(k), any_word_with_tag(k)) };
+    // strings: comparisons read the text (c06_string_cmp_*, concrete)
+    kani::assume(!(k == 5 && op >= 5 && op <= 10));
+    let r = keep(f(a, b, &mut gc));
+    let r = &*r;
+    if op < 5 {
+        assert!(matches!(r, Err(Error::TypeError(_))));
+    }
+    if op >= 11 {
+        if k == 2 {
+            let want = if op == 11 { a.as_bool() && b.as_bool() } else { a.as_bool() || b.as_bool() };
+            assert!(matches!(r, Ok(o) if o.tag() == Type::Bool && o.as_bool() == want));
+        } else {
+            assert!(matches!(r, Err(Error::TypeError(_))));
+        }
+    }
+    if op >= 5 && op <= 8 && (k == 6 || k == 3) {
+        assert!(matches!(r, Err(Error::TypeError(_))));
+    }
+    if op == 9 || op == 10 {
+        assert!(matches!(r, Ok(o) if o.tag() == Type::Bool && o.as_bool() == ((a.0 == b.0) == (op == 9))));
+    }
+    if op >= 5 && op <= 8 && (k == 0 || k == 2) {
+        // ordering of null / bool is not fixed by the documentation: a bool or a type error, no panic.
+        // (The implementation compares the tagged words as raw pointers, which CBMC models imprecisely.)
+        assert!(match r { Ok(o) => o.tag() == Type::Bool, Err(e) => matches!(e, Error::TypeError(_)) });
+    }
+}
+
+/// O06.6 [bounded: concrete pairs] string comparisons equal byte-lexicographic order
+fn string_cmp_contract(s: &'static str, t: &'static str, want: std::cmp::Ordering) {
+    use std::cmp::Ordering::*;
+    let mut gc = new_gc();
+    let a = Object::string(s, &mut gc);
+    let b = Object::string(t, &mut gc);
+    let get = |r: Result<Object, Error>| match &*keep(r) { Ok(o) => { assert!(o.tag() == Type::Bool); o.as_bool() } Err(_) => { assert!(false); false } };
+    assert!(get(a.lt(b, &mut gc)) == (want == Less));
+    assert!(get(a.lte(b, &mut gc)) == (want != Greater));
+    assert!(get(a.gt(b, &mut gc)) == (want == Greater));
+    assert!(get(a.gte(b, &mut gc)) == (want != Less));
+    assert!(get(a.eq(b, &mut gc)) == (want == Equal));
+    assert!(get(a.neq(b, &mut gc)) == (want != Equal));
+    assert!(matches!(&*keep(a.add(b, &mut gc)), Err(Error::TypeError(_))));
+}
+#[kani::proof]
+#[kani::unwind(5)]
+#[kani::stub(std::fmt::format, fmt_stub)]
+fn c06_string_cmp_less() {
+    string_cmp_contract("ab", "b", std::cmp::Ordering::Less);
+}
+#[kani::proof]
+#[kani::unwind(5)]
+#[kani::stub(std::fmt::format, fmt_stub)]
+fn c06_string_cmp_prefix() {
+    string_cmp_contract("ab", "a", std::cmp::Ordering::Greater);
+}
+#[kani::proof]
+#[kani::unwind(5)]
+#[kani::stub(std::fmt::format, fmt_stub)]
+fn c06_string_cmp_equal() {
+    string_cmp_contract("ab", "ab", std::cmp::Ordering::Equal);
 }
